@@ -1,59 +1,59 @@
 #!/usr/bin/env python3
-"""Run the registered checks against the seeded changes in /verif/seeded/*.
+"""Run the registered checks against the seeded changes in /verif/seeded/* WITHOUT touching /repo or
+/verif/evidence: each seed is applied in a scratch worktree of /repo HEAD (removed afterwards), the owning
+property's check runs with SYMX_SRC pointing at it, evidence and replays go to a temp dir.
 
-usage: seed_run.py [name ...] [--tier quick|thorough] [--props C09,C10]
-
-For each seed: git -C /repo apply patch.diff; ./check <property> <tier>; git -C /repo checkout -- . ;
-records exit status and the violated clauses in seeded/<name>/meta.json ("detected_by").
+usage: seed_run.py [name ...] [--tier quick|thorough]
+Records exit status and violated clauses in seeded/<name>/meta.json ("runs", "detected_by").
 """
 import glob
 import json
 import os
+import shutil
 import subprocess
 import sys
+import tempfile
 
-args = [a for a in sys.argv[1:] if not a.startswith("--")]
+argv = sys.argv[1:]
 tier = "quick"
-extra_props = None
-for i, a in enumerate(sys.argv):
-    if a == "--tier":
-        tier = sys.argv[i + 1]
-        args.remove(tier) if tier in args else None
-    if a == "--props":
-        extra_props = sys.argv[i + 1].split(",")
-        args.remove(sys.argv[i + 1]) if sys.argv[i + 1] in args else None
-names = args or sorted(os.listdir("/verif/seeded"))
-assert subprocess.run("git -C /repo status --porcelain", shell=True, capture_output=True, text=True).stdout.strip() == "", "/repo not clean"
+if "--tier" in argv:
+    i = argv.index("--tier")
+    tier = argv[i + 1]
+    del argv[i:i + 2]
+names = argv or sorted(d for d in os.listdir("/verif/seeded") if os.path.isdir(os.path.join("/verif/seeded", d)))
+head = subprocess.run("git -C /repo rev-parse --short HEAD", shell=True, capture_output=True, text=True).stdout.strip()
 summary = []
 for name in names:
     d = os.path.join("/verif/seeded", name)
     meta = json.load(open(os.path.join(d, "meta.json")))
-    props = extra_props or [meta["property"]]
-    r = subprocess.run("git -C /repo apply %s/patch.diff" % d, shell=True, capture_output=True, text=True)
-    if r.returncode != 0:
-        print(name, "PATCH DOES NOT APPLY", r.stderr[:200])
-        summary.append((name, "patch does not apply"))
-        continue
+    prop = meta["property"]
+    wt = tempfile.mkdtemp(prefix="sr-", dir="/tmp")
+    os.rmdir(wt)
+    tmp = tempfile.mkdtemp(prefix="srout-", dir="/tmp")
     try:
-        for prop in props:
-            for f in glob.glob("/verif/replays/%s-*.json" % prop):
-                os.unlink(f)
-            r = subprocess.run("./check %s %s" % (prop, tier), shell=True, capture_output=True, text=True, cwd="/verif")
+        r = subprocess.run("git -C /repo worktree add -q --detach %s HEAD && git -C %s apply %s/patch.diff" % (wt, wt, d), shell=True, capture_output=True, text=True)
+        if r.returncode != 0:
+            print(name, "PATCH DOES NOT APPLY", r.stderr[:200])
+            meta.setdefault("runs", {})["%s-%s" % (prop, tier)] = {"check": "./check %s %s" % (prop, tier), "exit": None, "clauses": {}, "summary": "patch does not apply on %s" % head}
+            summary.append((name, "patch does not apply"))
+        else:
+            env = dict(os.environ, SYMX_SRC=os.path.join(wt, "src"), SYMX_EVIDENCE_DIR=tmp, SYMX_REPLAY_DIR=tmp)
+            r = subprocess.run(["./check", prop, tier], cwd="/verif", env=env, capture_output=True, text=True)
             clauses = {}
-            for f in glob.glob("/verif/replays/%s-*.json" % prop):
+            for f in glob.glob(os.path.join(tmp, "%s-*.json" % prop)):
                 v = json.load(open(f))
                 k = "%s/%s" % (v["harness"], v["clause"])
                 clauses.setdefault(k, {"count": 0, "example_unit": v["unit"], "example_inputs": v["inputs"]})["count"] += 1
-            head = r.stdout.strip().splitlines()[0] if r.stdout.strip() else ""
-            det = {"check": "./check %s %s" % (prop, tier), "exit": r.returncode, "clauses": clauses, "summary": head}
+            headline = r.stdout.strip().splitlines()[0] if r.stdout.strip() else ""
+            det = {"check": "./check %s %s" % (prop, tier), "exit": r.returncode, "clauses": clauses, "summary": headline, "repo_head": head}
             meta.setdefault("runs", {})["%s-%s" % (prop, tier)] = det
             if r.returncode == 1:
-                meta["detected_by"] = meta.get("detected_by") or det["check"]
+                meta["detected_by"] = det["check"]
             print(name, prop, tier, "exit", r.returncode, list(clauses)[:4])
             summary.append((name, prop, r.returncode))
     finally:
-        subprocess.run("git -C /repo checkout -- .", shell=True)
+        subprocess.run("git -C /repo worktree remove --force %s" % wt, shell=True, capture_output=True)
+        shutil.rmtree(wt, ignore_errors=True)
+        shutil.rmtree(tmp, ignore_errors=True)
     json.dump(meta, open(os.path.join(d, "meta.json"), "w"), indent=1)
-# restore the evidence of the unchanged tree for the properties we touched
-print("NOTE: evidence files of the touched properties were overwritten by runs on mutated trees; re-run the checks on the clean tree before committing.")
 print(summary)
